@@ -385,6 +385,24 @@ class Simulation:
                 msg,
             )
 
+        if (
+            variable.definition_period == periods.DateUnit.DAY
+            and period.unit != periods.DateUnit.DAY
+        ):
+            msg = f"Unable to compute variable '{variable.name}' for period {period}: '{variable.name}' must be computed for a whole day. You can use the ADD option to sum '{variable.name}' over the requested period, or change the requested period to 'period.first_day'."
+            raise ValueError(
+                msg,
+            )
+
+        if (
+            variable.definition_period == periods.DateUnit.WEEKDAY
+            and period.unit != periods.DateUnit.WEEKDAY
+        ):
+            msg = f"Unable to compute variable '{variable.name}' for period {period}: '{variable.name}' must be computed for a whole weekday. You can use the ADD option to sum '{variable.name}' over the requested period, or change the requested period to 'period.first_weekday'."
+            raise ValueError(
+                msg,
+            )
+
         if period.size != 1:
             msg = f"Unable to compute variable '{variable.name}' for period {period}: '{variable.name}' must be computed for a whole {variable.definition_period}. You can use the ADD option to sum '{variable.name}' over the requested period."
             raise ValueError(
